@@ -413,6 +413,10 @@ class Sem:
         if isinstance(out, IntV):
             if isinstance(c, IntV):
                 return IntV(out.v if c.v != 0 else 0)
+            # a constant after ':' is carried on the condition's own type (left-operand rule); an
+            # all-integer condition cannot reach here
+            if isinstance(c, SigV):
+                return SigV(c.type, B.ite(truth, B.const(out.v), B.const(0)), c.implicit_id, note=c.note)
             return SigV(None, B.ite(truth, B.const(out.v), B.const(0)), self.fresh_implicit())
         if isinstance(out, SigV):
             return SigV(out.type, B.ite(truth, out.v, B.const(0)), out.implicit_id)
